@@ -63,6 +63,9 @@ def admissible_charges(ops, N):
 def dense_state(psi, ops):
     """dense array of an MPS/MPO via yastn's own to_tensor, embedded into the FULL physical spaces; includes psi.factor.
     MPS: axes (p0..pN-1); MPO: axes (k0, b0, k1, b1, ...)"""
+    if psi.pC is not None:          # a detached central block is part of the state: absorb it in a shallow copy
+        psi = psi.shallow_copy()
+        psi.absorb_central_(to='last')
     t = psi.to_tensor()
     sp = ops.space()
     if psi.nr_phys == 1:
